@@ -40,6 +40,8 @@ def run_c13(facts, out):
         out.anchor('SS-C13', 'add impl of ' + kind, hfn is not None, fn)
         if hfn is None:
             continue
+        # a shared private helper (`insert_or_replace(list, point, cmp)`) is analysed in place
+        hfn = {'path': hfn['path'], 'params': hfn.get('params', []), 'body': _inlined_body(facts, hfn)}
         ctx = Ctx(facts, H.binding_inits(hfn), hfn)
         b = facts.body(fn)
         where = '%s:%d' % (b.file, b.line)
@@ -87,6 +89,20 @@ def run_c13(facts, out):
                            (H.field_chain(strip(strip(o_body['l'])['e'])) or (None, None))[1] == [lst])
                     if not okO:
                         why = why or 'Ok(i) arm does not replace `%s[i]` with the new point (one point per time)' % lst
+            # nothing else may put a point into the list (an append fast path, a second insert, ...)
+            muts = []
+
+            def vis_m(n, anc):
+                if n.get('k') == 'mcall' and n.get('name') in ('push', 'insert', 'append', 'extend', 'extend_from_slice',
+                                                               'push_front', 'splice', 'resize', 'swap', 'remove',
+                                                               'truncate', 'clear', 'retain', 'sort_by', 'dedup_by'):
+                    fc3 = H.field_chain(strip(n['recv']))
+                    if fc3 and fc3[1] == [lst]:
+                        muts.append(n.get('name'))
+            H.walk(hfn['body'], vis_m)
+            if muts != ['insert']:
+                why = why or ('the list is also modified by %s: only `insert` at the searched position / replacement of the '
+                              'found element keep it strictly ordered with one point per time' % sorted(set(muts) - {'insert'} or muts))
             ok = not why
         out.add('SS-C13', fn, 'sorted-insert-or-replace', where, ok, why, ordinal=False)
     # ControlPoints::add : check_already_existing first, insert only on false
@@ -763,6 +779,18 @@ def run_c20(facts, out):
                                 vd = value_def(b, op_local(o))
                             if vd and vd[0] == 'assign' and vd[1]['rv']['k'] == 'aggr':
                                 kinds.setdefault(cur, set()).add(vd[1]['rv'].get('variant'))
+                    # an event built by a private helper method (`self.tail_event()`)
+                    tt = b.blocks[x]['term']
+                    if tt['k'] == 'call':
+                        cc = callee_of(tt)
+                        cb = facts.bodies.get(cc['path']) if cc else None
+                        if cb is not None and cb.locals[0].get('adt') == EV + 'SliderEvent':
+                            for bi2, si2, kd2, st2 in cb.defs.get(0, []):
+                                if kd2 == 'assign' and st2['rv']['k'] == 'aggr' and st2['rv'].get('adt') == EV + 'SliderEvent':
+                                    o2 = st2['rv']['ops'][st2['rv']['fields'].index('kind')]
+                                    vd2 = value_def(cb, op_local(o2)) if o2['k'] in ('copy', 'move') else None
+                                    if vd2 and vd2[0] == 'assign' and vd2[1]['rv']['k'] == 'aggr':
+                                        kinds.setdefault(cur, set()).add(vd2[1]['rv'].get('variant'))
         exp = {'Head': {'Ticks'}, 'Ticks': {'LastTick'}, 'LastTick': {'Tail'}, 'Tail': {'Done'}}
         got = {k: v for k, v in trans.items()}
         ok = got == exp
